@@ -506,8 +506,12 @@ func (m *Machine) pickThread() *Thread {
 		return nil
 	}
 	if m.ex.Mode == "conc" {
-		// preemption-bounded scheduling: the thread that just yielded may go on;
-		// switching away from it while it could continue costs one preemption
+		// delay-bounded scheduling: the default scheduler is deterministic (the
+		// running thread goes on while it can; when it blocks or ends, the next
+		// runnable thread in id order after it takes over). Choosing any other
+		// runnable thread at a scheduling point is a deviation; at most
+		// ex.Preempt deviations per path. Every deviation is a decision of the
+		// symbolic executor, explored by forking.
 		var opts []*Thread
 		curRunnable := false
 		for _, t := range run {
@@ -517,21 +521,29 @@ func (m *Machine) pickThread() *Thread {
 		}
 		if curRunnable {
 			opts = append(opts, m.cur)
-			if m.preemptions < m.ex.Preempt {
-				for _, t := range run {
-					if t != m.cur {
-						opts = append(opts, t)
-					}
-				}
+		}
+		curID := -1
+		if m.cur != nil {
+			curID = m.cur.ID
+		}
+		for _, t := range run { // round robin: ids after the current one first
+			if t != m.cur && t.ID > curID {
+				opts = append(opts, t)
 			}
-		} else {
-			opts = run
+		}
+		for _, t := range run {
+			if t != m.cur && t.ID < curID {
+				opts = append(opts, t)
+			}
+		}
+		if m.preemptions >= m.ex.Preempt {
+			opts = opts[:1]
 		}
 		k := 0
 		if len(opts) > 1 {
 			k = m.Choose(len(opts), "sched")
 		}
-		if curRunnable && opts[k] != m.cur {
+		if k > 0 {
 			m.preemptions++
 		}
 		if m.cur != nil {
